@@ -362,7 +362,8 @@ def hist_op(rng, kind, counter, uid, types=None):
     raise ValueError(kind)
 
 
-def hist_case(rng, uid, forest, kinds, warm, plan, via=None, links=False, ids=False, big=False, typepool=None):
+def hist_case(rng, uid, forest, kinds, warm, plan, via=None, links=False, ids=False, big=False, typepool=None,
+              wide_ops=False):
     """A history: initial tree (+ a second Document), then for every kind in `kinds` an optional
     round of queries (`warm`: None = random subset, else the list) followed by the operation.
     typepool: the types of the Sections and of the type edits (default: the ASCII TYPES)."""
@@ -386,6 +387,8 @@ def hist_case(rng, uid, forest, kinds, warm, plan, via=None, links=False, ids=Fa
             if not (pa + "/").startswith(pb + "/") and not (pb + "/").startswith(pa + "/"):
                 a["l"] = pb                              # stored unresolved until finalize / load
                 break
+    if wide_ops and not links:
+        unname(rng, doc["s"], [0])                       # objects without a name: the id is the name
     ops = []
     for kind in kinds:
         if counter[0] == 0:
@@ -393,7 +396,7 @@ def hist_case(rng, uid, forest, kinds, warm, plan, via=None, links=False, ids=Fa
         ks = warm if warm is not None else [k for k in WARM_KINDS if rng.random() < 0.4]
         if ks:
             ops.append({"op": "warm", "k": list(ks) + (["mid"] if rng.random() < 0.35 else [])})
-        op = hist_op(rng, kind, counter, uid, typepool)
+        op = (hist_op2 if wide_ops else hist_op)(rng, kind, counter, uid, typepool)
         ops += op if isinstance(op, list) else [op]
     if links and "finalize" not in kinds and not via:
         ops.append({"op": "finalize"})
@@ -547,6 +550,355 @@ def twin_case(rng, uid, j=0):
             ops += op if isinstance(op, list) else [op]
         ops += warm(0.3)
     return {"stream": "hist", "plan": "all", "doc": doc, "ops": ops, "twins": diff}
+
+
+# ---- added after seeded round 5 ------------------------------------------------------------------------
+RAW_INDEX = [-3, -2, -1, 0, 0, 1, 1, 2, 3, 4, 7, True, False, 1.0, 10, -10]     # bool: an int; float: refused
+EMPTY_NAMES = [None, ""]
+FALSY_NAMES = [None, "", None, "", 0, False]       # everything `not name` holds for falls back to the id
+
+
+def ref_name(rng, maxu, props=False):
+    """A name that is not a fresh string: empty (None / "": the id becomes the name), the id of another
+    object, the name another object has right now."""
+    r = rng.random()
+    if r < 0.3:
+        return rng.choice(FALSY_NAMES)
+    if r < 0.35:
+        return rng.choice([" ", "\t", u"\xa0"])        # white space only: a name like any other
+    ref = {"idof" if r < 0.8 else "nameof": hist_spec(rng, maxu)}
+    if props:
+        ref["k"] = rng.randrange(0, 3)
+    return ref
+
+
+def hist_op2(rng, kind, counter, uid, types=None):
+    """hist_op with the argument shapes seeded round 5 showed to be missing: the target of a move is the
+    parent the object has already (same child list), the index is passed as it is (negative, last, out of
+    range), names are empty or the id / name of another object."""
+    maxu = counter[0]
+    ops = hist_op(rng, kind, counter, uid, types)
+    for op in (ops if isinstance(ops, list) else [ops]):
+        k = op["op"]
+        if k in ("move", "pmove", "clone", "new", "newprop"):
+            if k in ("move", "pmove") and rng.random() < 0.3:
+                op["to"] = "parent"
+            if rng.random() < 0.5:
+                op["rawi"] = True
+                op["i"] = rng.choice(RAW_INDEX)
+        if k in ("rename", "new", "clone") and rng.random() < 0.35:
+            op["name"] = ref_name(rng, maxu)
+        if k in ("prename", "newprop") and rng.random() < 0.35:
+            op["name"] = ref_name(rng, maxu, rng.random() < 0.7)
+        if k == "newprop" and rng.random() < 0.2:
+            op["idof"], op["idk"] = hist_spec(rng, maxu), rng.randrange(0, 3)
+        if k == "sort" and rng.random() < 0.4:
+            op["how"] = "reverse"                        # list.reverse() on the child lists
+    return ops
+
+
+def unname(rng, secs, counter, p=0.25):
+    """Some Sections / Properties of the forest are created WITHOUT a name: their id is their name (a
+    fixed id each, so that a case is the same case in every run)."""
+    for _path, node in json_nodes(secs):
+        for prop in node["p"]:
+            if rng.random() < p and prop.get("i") is None:
+                counter[0] += 1
+                prop["n"], prop["i"] = None, 5000 + counter[0]
+    for _path, node in json_nodes(secs):
+        if rng.random() < p and node.get("i") is None:
+            counter[0] += 1
+            node["n"], node["i"] = None, 5000 + counter[0]
+
+
+def warm_round(rng, p=0.5, mid=0.5):
+    if rng.random() >= p:
+        return []
+    return [{"op": "warm", "k": [k for k in WARM_KINDS if rng.random() < 0.4] + (["mid"] if rng.random() < mid else [])}]
+
+
+def own_case(rng, uid, j=0):
+    """
+    Stream hist, sub-stream "own" (added after seeded round 5): an object is attached to the parent it
+    has ALREADY - assigned to a slot of the child list it sits in (at a lower / the same / a higher index
+    than its own, negative index, last index, out of range), inserted, appended, extended, `parent =` -
+    for the Sections of a Document, the sub-Sections of a Section and the Properties of a Section; also a
+    slot is given to a child of the object that holds it, to the owner of the list, to two members in one
+    call. The library may refuse or carry out a move; either way the Document stays a tree and every
+    object is found by its path and by the traversals.
+    """
+    where = ["doc", "sec", "prop"][j % 3]
+    n = [2, 3, 4, 3, 5, 4, 3, 11][(j // 3) % 8]           # 11: the tenth and eleventh entry exist
+    types = TYPES[:6]
+    pool = NAMES + ["abcd", "c"] + (["x%d" % k for k in range(1, 9)] + ["10", "2"] if n > 6 else [])
+    if where == "prop":
+        props = []
+        for pn in rng.sample(list(dict.fromkeys(PROP_NAMES + ["q", "r"] + (pool if n > 6 else []))), n):
+            uid[0] += 1
+            props.append({"n": pn, "v": rng.choice([[uid[0]], [uid[0], -3], [uid[0], -9, -9]])})
+        sec = {"n": rng.choice(pool), "t": rng.choice(types), "p": props,
+               "s": decorate(rng.choice(forests(rng.choice([0, 1, 2]))), rng, uid, types)}
+        tops = [sec] + decorate(((rng.choice([x for x in pool if x != sec["n"]]), ()),), rng, uid, types)
+        rng.shuffle(tops)
+        main = tops if rng.random() < 0.5 else [{"n": rng.choice(pool), "t": "t", "p": [], "s": tops}]
+        members = None
+    else:
+        members = decorate(tuple((nm, rng.choice(forests(rng.choice([0, 1, 1, 2])))) for nm in rng.sample(pool, n)),
+                           rng, uid, types)
+        if where == "doc":
+            main = members
+        else:
+            sec = {"n": rng.choice(pool), "t": rng.choice(types), "p": [], "s": members}
+            uid[0] += 1
+            if rng.random() < 0.5:
+                sec["p"].append({"n": "p", "v": [uid[0]]})
+            main = [sec]
+            if rng.random() < 0.5:
+                main = main + decorate(((rng.choice([x for x in pool if x != sec["n"]]), ()),), rng, uid, types)
+            if rng.random() < 0.3:
+                main = [{"n": rng.choice(pool), "t": "t", "p": [], "s": main}]
+    doc = {"s": main, "o": decorate(rng.choice(forests(rng.randrange(0, 3))), rng, uid, types[:3])}
+    counter = [0]
+    number_nodes(doc["s"], counter)
+    number_nodes(doc["o"], counter)
+    if rng.random() < 0.15:
+        share_ids(rng, doc["s"])
+    hows = ["setitem", "setitem", "setitem", "setitem", "insert", "append", "extend", "parent"]
+
+    def own_op(jj):
+        how = hows[jj % len(hows)]
+        i = range(-n - 1, n + 2)[(jj // len(hows)) % (2 * n + 3)] if how in ("setitem", "insert") else 0
+        if where == "prop":
+            return {"op": "pmove", "x": {"u": sec["u"]}, "k": rng.randrange(0, n), "to": "parent", "how": how,
+                    "i": i, "rawi": True}
+        x = rng.choice(members)
+        op = {"op": "move", "x": {"u": x["u"]}, "to": "parent", "how": how, "i": i, "rawi": True}
+        r = rng.random()
+        if r < 0.1 and x["s"]:
+            # the slot goes to a child of a member (possibly of the member that holds the slot)
+            op["x"] = {"u": x["u"], "d": [rng.randrange(0, 3)]}
+            op["to"] = {"u": 0} if where == "doc" else {"u": sec["u"]}
+        elif r < 0.15 and where == "sec":
+            op["x"] = {"u": sec["u"]}               # the owner of the list is asked into its own list
+            op["to"] = {"u": sec["u"]}
+        elif r < 0.25 and how == "extend":
+            op["y"] = {"u": rng.choice(members)["u"]}     # two members (or the same one twice) in one call
+        return op
+    ops = warm_round(rng)
+    ops.append(own_op(j // 3))
+    ops += warm_round(rng, 0.6, 0.7)
+    for _ in range(rng.choice([0, 0, 1, 1, 2, 3])):
+        if rng.random() < 0.6:
+            ops.append(own_op(rng.randrange(0, 1000)))
+        else:
+            op = hist_op2(rng, rng.choices(OP_KINDS, OP_WEIGHTS)[0], counter, uid)
+            ops += op if isinstance(op, list) else [op]
+        ops += warm_round(rng, 0.4, 0.6)
+    return {"stream": "hist", "plan": "all", "doc": doc, "ops": ops, "own": where}
+
+
+def idname_case(rng, uid, j=0):
+    """
+    Stream hist, sub-stream "idnames" (added after seeded round 5): names that are ids. An object created
+    without a name carries its id as its name; it gets a real name later; another object of the same
+    parent is called like that id (a keep_id clone taken while the name was the id, an object created with
+    or renamed to that string, a new object with the same oid and no name, an unnamed sibling whose id the
+    object takes over by new_id, a file written while the object was unnamed); then a name is cleared
+    again (None / ""), which makes the library fall back to the id. Sections below the Document or below
+    a Section, and Properties. Whether a step is refused or not: every object is found by its own path.
+    """
+    what = "prop" if j % 3 == 2 else "sec"
+    variant = ["clone", "named", "renamed", "oid", "shared", "setid", "named", "renamed"][(j // 3) % 8]
+    empty = EMPTY_NAMES[(j // 24) % 2]
+    types = TYPES[:6]
+    fid = 7000 + (j % 50)
+    real = rng.choice(["session", "x1", "abcd"])
+    if what == "prop" and variant in ("clone", "setid"):
+        variant = "named"                  # (a Property clone cannot be taken by this vocabulary; new_id: Sections)
+    uid[0] += 3
+    sibs = decorate(rng.choice(forests(rng.choice([0, 1, 1, 2]))), rng, uid, types)
+    sib = {"n": "c", "t": rng.choice(types), "p": [{"n": "c", "v": [uid[0] - 1]}], "s": []}
+    first = {"n": None, "i": fid, "t": "rec", "p": [{"n": "p", "v": [uid[0]]}],
+             "s": decorate(rng.choice(forests(rng.choice([0, 1, 1]))), rng, uid, types)}
+    if what == "prop":
+        first["n"] = rng.choice(["s", "a"])
+        del first["i"]
+        first["p"] = [{"n": None, "i": fid, "v": [uid[0]]}, {"n": "c", "v": [uid[0] - 1]}]
+        if rng.random() < 0.5:
+            first["p"].reverse()
+        sibs = [x for x in sibs if x["n"] != first["n"]]
+    if variant == "shared":
+        # two siblings share the id; one of them is unnamed (its name is the id), the other one is named
+        # and gets its name cleared
+        if what == "prop":
+            first["p"].append({"n": "q", "i": fid, "v": [uid[0] - 2]})
+        else:
+            sib["i"] = fid
+    kids = sibs + [first, sib]
+    rng.shuffle(kids)
+    main = kids if rng.random() < 0.5 else [{"n": "top", "t": "t", "p": [], "s": kids}]
+    doc = {"s": main, "o": decorate(rng.choice(forests(rng.randrange(0, 2))), rng, uid, types[:3])}
+    counter = [0]
+    number_nodes(doc["s"], counter)
+    number_nodes(doc["o"], counter)
+    F, S = {"u": first["u"]}, {"u": sib["u"]}
+    fk = [n for n, p in enumerate(first["p"]) if p.get("i") == fid and p["n"] is None][0] if what == "prop" else None
+    how = rng.choice(["append", "insert", "extend", "parent", "ctor", "create"])
+    w = lambda: warm_round(rng, 0.4, 0.6)
+    ops = w()
+    if what == "sec":
+        give_name = [{"op": "rename", "x": F, "name": real}]
+        clear = [{"op": "rename", "x": F, "name": empty}]
+        P = "parent"
+        attach = how if how not in ("ctor", "create") else "append"
+        if variant == "clone":
+            counter[0] += 1
+            cu = counter[0]
+            ops += [{"op": "clone", "x": F, "keep_id": True, "children": rng.random() < 0.7, "name": None, "to": P,
+                     "how": "none", "i": 0, "u": cu}] + w() + give_name + w()
+            ops += [{"op": "move", "x": {"u": cu}, "to": {"u": first["u"], "up": 1}, "how": attach, "i": rng.choice([0, 1, -1])}]
+        elif variant == "named":
+            counter[0] += 1
+            ops += give_name + w() + [{"op": "new", "to": {"u": first["u"], "up": 1}, "name": {"idof": F},
+                                       "type": "other", "how": how, "i": rng.choice([0, 1, -1]), "u": counter[0]}]
+        elif variant == "renamed":
+            ops += give_name + w() + [{"op": "rename", "x": S, "name": {"idof": F}}]
+        elif variant == "oid":
+            counter[0] += 1
+            ops += give_name + w() + [{"op": "new", "to": {"u": first["u"], "up": 1}, "name": None, "idof": F,
+                                       "type": "other", "how": how, "i": rng.choice([0, 1, -1]), "u": counter[0]}]
+        elif variant == "shared":
+            clear = [{"op": "rename", "x": S, "name": empty}]
+        elif variant == "setid":
+            # the named sibling takes over the id of the unnamed one, then loses its name
+            ops += [{"op": "setid", "x": S, "idof": F}]
+            clear = [{"op": "rename", "x": S, "name": empty}]
+    else:
+        give_name = [{"op": "prename", "x": F, "k": fk, "name": real}]
+        # (after the rename the Property keeps its place in the list: k still names it)
+        clear = [{"op": "prename", "x": F, "k": fk, "name": empty}]
+        attach = how if how != "parent" else "append"
+        if variant == "named":
+            ops += give_name + w() + [{"op": "newprop", "to": F, "name": {"idof": F, "k": fk}, "v": [-9, -9],
+                                       "how": attach, "i": 5}]
+        elif variant == "renamed":
+            ok = [n for n, p in enumerate(first["p"]) if p["n"] == "c"][0]
+            ops += give_name + w() + [{"op": "prename", "x": F, "k": ok, "name": {"idof": F, "k": fk}}]
+        elif variant == "oid":
+            ops += give_name + w() + [{"op": "newprop", "to": F, "name": None, "idof": F, "idk": fk, "v": [-8],
+                                       "how": attach, "i": 5}]
+        elif variant == "shared":
+            qk = [n for n, p in enumerate(first["p"]) if p["n"] == "q"][0]
+            clear = [{"op": "prename", "x": F, "k": qk, "name": empty}]
+    ops += w()
+    # neighbours of the last step: the name is cleared twice, set to the id explicitly, to a fresh name
+    # and cleared after that, the other object is cleared instead
+    r = rng.random()
+    if r < 0.6:
+        ops += clear
+    elif r < 0.7:
+        ops += clear + w() + clear
+    elif r < 0.8:
+        ops += [dict(clear[0], name=({"idof": F} if what == "sec" else {"idof": F, "k": fk}))]
+    elif r < 0.9:
+        ops += [dict(clear[0], name="fresh")] + clear
+    else:
+        ops += [dict(clear[0], name=rng.choice(FALSY_NAMES))]
+    ops += warm_round(rng, 0.5, 0.8)
+    for _ in range(rng.choice([0, 0, 0, 1, 2])):
+        op = hist_op2(rng, rng.choices(OP_KINDS, OP_WEIGHTS)[0], counter, uid)
+        ops += op if isinstance(op, list) else [op]
+        ops += warm_round(rng, 0.3, 0.6)
+    case = {"stream": "hist", "plan": "all", "doc": doc, "ops": ops, "idnames": what + ":" + variant}
+    if (j // 3) % 5 == 4 and variant in ("named", "renamed", "oid"):
+        # the Document was written while the object was unnamed and is read back before the history
+        case["via"] = [["XML", "JSON", "YAML"][(j // 15) % 3], ["string", "file"][(j // 45) % 2]]
+    return case
+
+
+
+# ---- stream setname (added after seeded round 5): the name setters against Model/PathName.lean ----------
+def setname_case(rng, j=0):
+    """One child list (Sections of a Document / of a Section, Properties of a Section); children with a
+    name, without one (the id is the name), called like the id of another child, sharing an id; then a
+    few assignments `child.name = value` with value a fresh / a taken name, None, "", the id or the name
+    of a child. Every assignment is one request to the model (`setName`)."""
+    kind = ["sec", "sec", "prop"][j % 3]
+    n = rng.choice([1, 2, 2, 3, 3, 4])
+    kids = []
+    for k in range(n):
+        r = rng.random()
+        kid = {"n": rng.choice(["a", "ab", "b", "session", "c%d" % k]), "i": 8000 + k}
+        if r < 0.35:
+            kid["n"] = None
+        elif r < 0.55 and k > 0:
+            kid["n"] = {"idof": rng.randrange(0, k)}
+        if k > 0 and rng.random() < 0.15:
+            kid["i"] = kids[rng.randrange(0, k)]["i"]        # two children share an id
+        kids.append(kid)
+
+    def value():
+        r = rng.random()
+        if r < 0.3:
+            return rng.choice(EMPTY_NAMES)
+        if r < 0.5:
+            return rng.choice(["a", "ab", "b", "session", "fresh", " "])
+        return {rng.choice(["idof", "idof", "nameof"]): rng.randrange(0, n)}
+    calls = [[rng.randrange(0, n), value()] for _ in range(rng.choice([1, 2, 3, 4]))]
+    return {"stream": "setname", "kind": kind, "holder": rng.choice(["doc", "sec"]) if kind == "sec" else "sec",
+            "kids": kids, "calls": calls}
+
+
+def run_setname(case):
+    import odml
+    doc = odml.Document()
+    holder = doc if case["holder"] == "doc" else odml.Section(name="top", type="t", parent=doc)
+    objs = []
+    try:
+        for kid in case["kids"]:
+            name = kid["n"]
+            if isinstance(name, dict):
+                name = fixed_uuid(case["kids"][name["idof"]]["i"])
+            if case["kind"] == "sec":
+                objs.append(odml.Section(name=name, type="t", oid=fixed_uuid(kid["i"]), parent=holder))
+            else:
+                objs.append(odml.Property(name=name, values=[len(objs)], oid=fixed_uuid(kid["i"]), parent=holder))
+    except Exception as exc:
+        return {"skipped": "the child list could not be built: " + fw.exc_name(exc)}
+    lst = (lambda: holder.sections) if case["kind"] == "sec" else (lambda: holder.properties)
+    names = lambda: [x.name for x in lst()]
+    calls = []
+    for i, val in case["calls"]:
+        if isinstance(val, dict):
+            ref = objs[val["idof"] if "idof" in val else val["nameof"]]
+            val = ref.id if "idof" in val else ref.name
+        rec = {"before": names(), "i": i, "oid": objs[i].id, "new": val}
+        try:
+            objs[i].name = val
+            rec["raised"] = False
+        except Exception as exc:
+            rec["raised"] = True
+        rec["after"] = names()
+        rec["same"] = all(a is b for a, b in zip(lst(), objs)) and len(lst()) == len(objs)
+        calls.append(rec)
+    lost = []
+    for k, obj in enumerate(objs):
+        try:
+            if case["kind"] == "sec":
+                got = [frm.get_section_by_path(obj.get_path()) for frm in (doc, holder, obj)]
+            else:
+                got = [frm.get_property_by_path(obj.get_path()) for frm in (doc, holder)]
+        except Exception as exc:
+            got = [exc]
+        if not all(g is obj for g in got):
+            lost.append(k)
+    if case["kind"] == "sec":
+        seen = [x for x in holder.itersections()]
+    else:
+        seen = [x for x in holder.iterproperties(max_depth=0)]
+    return {"calls": calls, "lost": lost, "seen": sorted(k for k, o in enumerate(objs) if any(o is x for x in seen)),
+            "n": len(objs)}
+
 
 
 # ----------------------------------------------------------------------------- positions
@@ -965,6 +1317,11 @@ class HistImpl(Impl):
             self._roundtrip(case["via"], case["doc"])
         self.objs[0] = self.doc
         self.objs[-1] = self.other
+        # every Section / Property the history has had in a child list so far (by identity): an object
+        # that drops out of the child lists but keeps its parent reference is still known (added after
+        # seeded round 5, see graphcheck / two_readings)
+        self.known = ({}, {})
+        self.note()
         for n, op in enumerate(case.get("ops", [])):
             self.nsteps += op["op"] != "warm"
             try:
@@ -973,6 +1330,8 @@ class HistImpl(Impl):
                 self.log.append("skip")
             except Exception as exc:          # a refused call is part of the history
                 self.log.append("raised")
+            if op["op"] != "warm":
+                self.note()
             if op["op"] != "warm" and len(self.walk(self.doc)[1]) > MAX_HIST_SECS:
                 self.stopped = n              # merges / clones of clones: keep the tree small
                 break
@@ -983,6 +1342,8 @@ class HistImpl(Impl):
             # no positions to talk about; what the property says about objects is still checked
             self.graph += self.graphcheck(self.doc, "Document")
             raise Skip(bad, self.graph)
+        # sibling names that are inside the quantifier one by one but occur twice (added after seeded round 5)
+        self.graph += namecheck(self.doc, self.final, secs, props, "Document")
         self.pos_of = {id(self.doc): ()}
         self.obj_at = {(): self.doc}
         self.prop_of = {}
@@ -993,9 +1354,11 @@ class HistImpl(Impl):
             self.prop_of[id(prop)] = (pos, k)
         self.keep = [p for _pos, _k, p in props]
 
-    @staticmethod
-    def graphcheck(doc, label):
-        return graphcheck(doc, label)
+    def graphcheck(self, doc, label):
+        return graphcheck(doc, label, self.known)
+
+    def note(self):
+        collect([self.doc, self.other] + [self.objs[u] for u in sorted(self.objs)], *self.known)
 
     # -- the tree as the child lists define it ---------------------------------
     @staticmethod
@@ -1110,6 +1473,10 @@ class HistImpl(Impl):
             if len(kids) == 0:
                 break
             obj = kids[i % len(kids)]
+        for _ in range(spec.get("up", 0)):
+            obj = obj.parent                  # the holder of the object, whatever it is by now
+            if obj is None:
+                raise Skip()
         return obj
 
     def nth_prop(self, sec, k):
@@ -1118,7 +1485,25 @@ class HistImpl(Impl):
             raise Skip()
         return props[k % len(props)]
 
-    def attach(self, obj, to, how, i, props=False, also=None):
+    def name_arg(self, name):
+        """A name given by reference (added after seeded round 5): {"idof": spec[, "k": n]} = the id of
+        another object (a Section, or its n-th Property) used as a name, {"nameof": ...} = its name."""
+        if not isinstance(name, dict):
+            return name
+        obj = self.resolve(name["idof"] if "idof" in name else name["nameof"])
+        if "k" in name:
+            obj = self.nth_prop(obj, name["k"])
+        if obj is self.doc or obj is self.other:
+            raise Skip()
+        return obj.id if "idof" in name else obj.name
+
+    def attach(self, obj, to, how, i, props=False, also=None, rawi=False):
+        if how == "none":
+            return                        # the object stays detached for now (a later move attaches it)
+        if how == "setitem" and rawi:
+            # the index as the caller gives it: negative, the last one, out of range (added after round 5)
+            (to.properties if props else to.sections)[i] = obj
+            return
         if how == "extend" and also is not None:
             # several objects in one call (one of them may be refused: nothing is added then)
             to.extend([obj, also] if i % 2 == 0 else [also, obj])
@@ -1194,20 +1579,23 @@ class HistImpl(Impl):
             return self.doc.finalize()
         x = R(op["x"]) if "x" in op else None
         if "to" in op:
-            to = x.parent if op["to"] == "parent" else R(op["to"])
+            if op["to"] == "parent":
+                to = x if k == "pmove" else x.parent      # the parent the moved object has already
+            else:
+                to = R(op["to"])
             if to is None:
                 raise Skip()
         if k == "rename":
-            x.name = op["name"]
+            x.name = self.name_arg(op["name"])
         elif k == "prename":
-            self.nth_prop(x, op["k"]).name = op["name"]
+            self.nth_prop(x, op["k"]).name = self.name_arg(op["name"])
         elif k == "move":
             also = None
             if "y" in op:
                 also = R(op["y"])
                 if "yk" in op:
                     also = self.nth_prop(also, op["yk"])
-            self.attach(x, to, op["how"], op.get("i", 0), also=also)
+            self.attach(x, to, op["how"], op.get("i", 0), also=also, rawi=op.get("rawi", False))
         elif k == "remove":
             if x.parent is None:
                 raise Skip()
@@ -1217,25 +1605,31 @@ class HistImpl(Impl):
                 x.parent = None
         elif k == "new":
             kw = {"oid": R(op["idof"]).id} if "idof" in op else {}
+            name = self.name_arg(op["name"])
             if op["how"] == "ctor":
-                self.objs[op["u"]] = odml.Section(name=op["name"], type=op["type"], parent=to, **kw)
+                self.objs[op["u"]] = odml.Section(name=name, type=op["type"], parent=to, **kw)
             elif op["how"] == "create":
-                self.objs[op["u"]] = to.create_section(op["name"], op["type"], **kw)
+                self.objs[op["u"]] = to.create_section(name, op["type"], **kw)
             else:
-                sec = odml.Section(name=op["name"], type=op["type"], **kw)
+                sec = odml.Section(name=name, type=op["type"], **kw)
                 self.objs[op["u"]] = sec
-                self.attach(sec, to, op["how"], op.get("i", 0))
+                self.attach(sec, to, op["how"], op.get("i", 0), rawi=op.get("rawi", False))
         elif k == "newprop":
             vals = list(op["v"])
+            name = self.name_arg(op["name"])
+            kw = {}
+            if "idof" in op:
+                kw["oid"] = self.nth_prop(R(op["idof"]), op.get("idk", 0)).id
             if op["how"] == "ctor":
-                odml.Property(name=op["name"], values=vals, dtype="int" if vals else None, parent=to)
+                odml.Property(name=name, values=vals, dtype="int" if vals else None, parent=to, **kw)
             elif op["how"] == "create":
-                to.create_property(op["name"], vals, "int" if vals else None)
+                to.create_property(name, vals, "int" if vals else None, **kw)
             else:
-                prop = odml.Property(name=op["name"], values=vals, dtype="int" if vals else None)
-                self.attach(prop, to, op["how"], op.get("i", 0), props=True)
+                prop = odml.Property(name=name, values=vals, dtype="int" if vals else None, **kw)
+                self.attach(prop, to, op["how"], op.get("i", 0), props=True, rawi=op.get("rawi", False))
         elif k == "pmove":
-            self.attach(self.nth_prop(x, op["k"]), to, op["how"], op.get("i", 0), props=True)
+            self.attach(self.nth_prop(x, op["k"]), to, op["how"], op.get("i", 0), props=True,
+                        rawi=op.get("rawi", False))
         elif k == "premove":
             prop = self.nth_prop(x, op["k"])
             if op["how"] == "remove":
@@ -1246,6 +1640,10 @@ class HistImpl(Impl):
             x.reorder(op["i"])
         elif k == "preorder":
             self.nth_prop(x, op["k"]).reorder(op["i"])
+        elif k == "sort" and op.get("how") == "reverse":
+            x.sections.reverse()
+            if hasattr(x, "properties"):
+                x.properties.reverse()
         elif k == "sort":
             x.sections.sort()
             if hasattr(x, "properties"):
@@ -1254,8 +1652,8 @@ class HistImpl(Impl):
             c = x.clone(children=op["children"], keep_id=op["keep_id"])
             self.objs[op["u"]] = c
             if op.get("name") is not None:
-                c.name = op["name"]
-            self.attach(c, to, op["how"], op.get("i", 0))
+                c.name = self.name_arg(op["name"])
+            self.attach(c, to, op["how"], op.get("i", 0), rawi=op.get("rawi", False))
         elif k == "setid":
             x.new_id(R(op["idof"]).id)
         elif k == "link":
@@ -1354,10 +1752,13 @@ class HistImpl(Impl):
     def midcheck(self, secs, props, tree):
         """The property at an intermediate state of the history (oracle level, no model):
         absolute paths from the Document and from the parent, and the full traversals."""
-        if len(secs) > 40 or not path_safe(tree["s"]) or len(self.mid) > 3:
+        if len(secs) > 40 or len(self.mid) > 3:
             return
         doc = self.doc
         step = self.nsteps
+        if not path_safe(tree["s"]):
+            self.mid += namecheck(doc, tree, secs, props, "after %d steps of the history, Document" % step)
+            return
         for pos, sec in secs:
             for frm in (doc, sec.parent, sec):
                 try:
@@ -1393,7 +1794,143 @@ class HistImpl(Impl):
                             "the child lists hold %d" % (step, len(got), len(props)))
 
 
-def graphcheck(doc, label):
+def collect(roots, secs, props):
+    """Adds every Section / Property that is reachable through child lists from the roots to the
+    registries id -> object (identity, not equality)."""
+    todo, seen = list(roots), set()
+    while todo and len(seen) < 5000:
+        node = todo.pop()
+        if id(node) in seen:
+            continue
+        seen.add(id(node))
+        if hasattr(node, "properties"):
+            secs.setdefault(id(node), node)
+            for prop in iter(node.properties):
+                props.setdefault(id(prop), prop)
+        todo += list(iter(node.sections))
+
+
+def all_plain(secs):
+    """Every name of the JSON forest is inside the property's quantifier taken by itself."""
+    return all(isinstance(s["n"], str) and plain(s["n"]) and all(isinstance(p["n"], str) and plain(p["n"])
+               for p in s["p"]) and all_plain(s["s"]) for s in secs)
+
+
+def namecheck(doc, tree, secs, props, label):
+    """
+    (added after seeded round 5) The child lists are a tree, every name is inside the quantifier (free of
+    '/' and ':', not '.', '..', not empty) - but two siblings carry the same name. The quantifier of the
+    property does not exclude that (the library itself is meant to: append / insert / the name setters
+    refuse a taken name), so the first clause of the property is evaluated as it stands, on the objects:
+    the path of every Section / Property, looked up from the Document and from its parent, is that object.
+    The position oracle and the model assume distinct sibling names and stay silent on such a tree.
+    """
+    if path_safe(tree["s"]) or not all_plain(tree["s"]) or len(secs) > 200:
+        return []
+    for pos, sec in secs:
+        for frm in (doc, sec.parent):
+            try:
+                path = sec.get_path()
+                got = frm.get_section_by_path(path)
+            except Exception as exc:
+                path, got = "?", exc
+            if got is not sec:
+                return ["%s: two siblings are called the same; the path %r of Section %s does not lead back to it "
+                        "(%s)" % (label, path, list(pos), type(got).__name__ if isinstance(got, Exception)
+                                  else "another Section")]
+    for pos, k, prop in props:
+        try:
+            path = prop.get_path()
+            got = doc.get_property_by_path(path)
+        except Exception as exc:
+            path, got = "?", exc
+        if got is not prop:
+            return ["%s: two siblings are called the same; the path %r of Property %s:%d does not lead back to it "
+                    "(%s)" % (label, path, list(pos), k, type(got).__name__ if isinstance(got, Exception)
+                              else "another Property")]
+    return []
+
+
+def two_readings(doc, label, secs, holders, props, pholders, known):
+    """
+    (added after seeded round 5) Child lists and parent references disagree: a Section / Property sits in
+    a child list below the Document but names another parent (or none), or names a parent below the
+    Document without being in its child list. "The Sections and Properties of a document" then has two
+    readings - L: what the child lists hold, P: what the parent references lead to the Document - and the
+    property does not choose (which of them is right is C03/C04's question). The WEAKER reading is taken:
+    a failure is reported only if the property fails under L AND under P:
+      L  Document.itersections() / iterproperties() yield exactly the objects of the child lists once each
+         and the path of each of them, looked up from the Document, is that object;
+      P  the same for the known objects whose parent chain ends in the Document.
+    known: every Section / Property the history has had in a child list at some time (identity).
+    """
+    ksecs, kprops = known
+    firm = lambda obj, hold: any(obj.parent is h for h in hold.get(id(obj), []))
+
+    def chain_ends_in_doc(sec):
+        node = sec
+        for _ in range(300):
+            node = getattr(node, "parent", None)
+            if node is doc:
+                return True
+            if node is None:
+                return False
+        return False
+    psecs = [s for s in ksecs.values() if chain_ends_in_doc(s)]
+    pids = set(id(s) for s in psecs)
+    pprops = [p for p in kprops.values() if p.parent is not None and id(p.parent) in pids]
+    lids, lpids = set(id(s) for s in secs), set(id(p) for p in props)
+    loose = [x for x in secs if not firm(x, holders)] + [x for x in props if not firm(x, pholders)]
+    stray = [x for x in psecs if id(x) not in lids] + [x for x in pprops if id(x) not in lpids]
+    if not loose and not stray:
+        return []
+    got_s, got_p = list(doc.itersections()), list(doc.iterproperties())
+
+    def reading(name, rsecs, rprops):
+        for what, got, want in (("itersections", got_s, rsecs), ("iterproperties", got_p, rprops)):
+            if sorted(id(x) for x in got) != sorted(id(x) for x in want):
+                missing = [x for x in want if not any(x is g for g in got)]
+                extra = [x for x in got if not any(x is w for w in want)]
+                return "Document.%s() yields %d objects, the %s hold %d%s%s" % (
+                    what, len(got), name, len(want), "; not yielded: %r" % missing[0] if missing else "",
+                    "; yielded: %r" % extra[0] if extra else "")
+        groups = {}
+        for s in rsecs:
+            groups.setdefault(id(s.parent) if name != "child lists" else id(holders[id(s)][0]), []).append(s.name)
+        ok = all(isinstance(n, str) and plain(n) for ns in groups.values() for n in ns) and \
+            all(len(set(ns)) == len(ns) for ns in groups.values())
+        if ok and len(rsecs) <= 80:
+            for s in rsecs:
+                path = "?"
+                try:
+                    path = s.get_path()
+                    got = doc.get_section_by_path(path)
+                except Exception as exc:
+                    got = exc
+                if got is not s:
+                    return "the path %r of %r, looked up from the Document, gives %s" % (
+                        path, s, type(got).__name__ if isinstance(got, Exception) else repr(got))
+            for p in rprops[:80]:
+                path = "?"
+                try:
+                    path = p.get_path()
+                    got = doc.get_property_by_path(path)
+                except Exception as exc:
+                    got = exc
+                if got is not p:
+                    return "the path %r of %r, looked up from the Document, gives %s" % (
+                        path, p, type(got).__name__ if isinstance(got, Exception) else repr(got))
+        return None
+    fail_l = reading("child lists", secs, props)
+    fail_p = reading("parent references", psecs, pprops)
+    if fail_l and fail_p:
+        return ["%s: child lists and parent references disagree (%r), and the property holds under neither: "
+                "taking the child lists, %s; taking the parent references, %s"
+                % (label, (loose + stray)[0], fail_l, fail_p)]
+    return []
+
+
+def graphcheck(doc, label, known=None):
     """
     The property read on OBJECTS (identity), for a state in which the child lists are not known to be a
     tree - a Section found in two child lists, a parent reference that names another holder. There are
@@ -1500,6 +2037,8 @@ def graphcheck(doc, label):
                 out.append("%s: the path %r of %r, looked up from the Document, gives %s"
                            % (label, path, sec, type(got).__name__ if isinstance(got, Exception) else repr(got)))
                 break
+    if known is not None and not out:
+        out += two_readings(doc, label, secs, holders, props, pholders, known)
     return out[:4]
 
 
@@ -1622,10 +2161,12 @@ class C14(fw.Check):
         "find_sound", "find_complete", "find_all_exact",
         "find_related_mem", "find_related_sound", "find_related_complete",
         "find_caseless", "find_type_as_stored", "find_related_caseless", "find_related_type_as_stored",
-        "mixed_folding_counterexample"]]
+        "mixed_folding_counterexample",
+        "set_name_keeps_distinct", "set_name_keeps_plain", "set_name_stores", "set_name_keeps_wf",
+        "paths_resolve_after_set_name", "late_fallback_counterexample"]]
     trusted_base = [
         "Lean 4.33.0 kernel; axioms propext, Classical.choice, Quot.sound only (audited per theorem)",
-        "hand-written model lean/OdmlModel/Model/Path.lean, Model/PathTree.lean, Py/Posix.lean, "
+        "hand-written model lean/OdmlModel/Model/Path.lean, Model/PathTree.lean, Model/PathName.lean, Py/Posix.lean, "
         "tied to /repo and to the real posixpath by this correspondence run",
         "Driver/*.lean JSON glue; harness/framework.py, harness/c14.py",
     ]
@@ -1899,6 +2440,26 @@ class C14(fw.Check):
             f = random_forest(rng, rng.choice([2, 3, 5]), NAMES, 3)
             cases.append({"stream": "case", "h": True, "plan": "all", "oracle_only": True,
                           "doc": {"s": decorate(f, rng, uid, pool, PROP_NAMES)}})
+        # ---- added after seeded round 5 (again behind the older streams) ----
+        scale = 1 if tier == "quick" else 3           # (the thorough tier is at its time budget already)
+        # an object is attached to the parent it has already / assigned to a slot of its own child list
+        for j in range(168 * scale):
+            cases.append(own_case(rng, uid, j))
+        # names that are ids: unnamed objects, siblings called like the id of another, names cleared again
+        for j in range(144 * scale):
+            cases.append(idname_case(rng, uid, j))
+        # the name setters one call at a time, against Model/PathName.lean
+        for j in range(240 * scale):
+            cases.append(setname_case(rng, j))
+        # random histories with the wider argument shapes (own parent as target, raw indices, empty names,
+        # ids / names of other objects as names, initial trees with unnamed objects)
+        for i in range(120 * scale):
+            kinds = rng.choices(OP_KINDS, OP_WEIGHTS, k=rng.randrange(1, 8))
+            via = None
+            if i % 6 == 5:
+                via = (["XML", "JSON", "YAML"][(i // 6) % 3], ["string", "file"][(i // 18) % 2])
+            ids = rng.random() < 0.15 and (via is None or via[1] == "string")   # odml.save refuses repeated ids
+            cases.append(hist_case(rng, uid, small(), kinds, None, "all", via=via, ids=ids, wide_ops=True))
         return cases
 
     # -- implementation ------------------------------------------------------
@@ -1924,6 +2485,8 @@ class C14(fw.Check):
             except Exception as exc:
                 return {"raised": fw.exc_name(exc)}
             raise ValueError(f)
+        if case["stream"] == "setname":
+            return run_setname(case)
         if is_hist(case):
             try:
                 im = HistImpl(case)
@@ -1945,6 +2508,10 @@ class C14(fw.Check):
             if "b" in case:
                 req["b"] = case["b"]
             return [req]
+        if case["stream"] == "setname":
+            return [{"op": "setname", "sibs": c["before"], "i": c["i"], "oid": c["oid"], "new": c["new"]}
+                    for c in obs.get("calls", [])
+                    if all(isinstance(x, str) for x in c["before"] + [c["oid"]])]
         if case.get("oracle_only"):
             return []                         # outside the model's vocabulary: the oracle alone decides
         case = eff_case(case, obs)
@@ -1964,6 +2531,14 @@ class C14(fw.Check):
     def compare(self, case, obs, answers):
         if not answers:
             return []
+        if case["stream"] == "setname":
+            out = []
+            for c, a in zip(obs.get("calls", []), answers):
+                got = {"raised": True} if c["raised"] else {"ok": c["after"]}
+                if got != a:
+                    out.append("child %d of %s, name = %r (id %s): implementation %s, model %s"
+                               % (c["i"], c["before"], c["new"], c["oid"], fw.canon(got), fw.canon(a)))
+            return out
         if is_hist(case):
             case = eff_case(case, obs)
         if case["stream"] == "posix":
@@ -1998,6 +2573,23 @@ class C14(fw.Check):
     def oracle(self, case, obs):
         if "harness_exception" in obs or case["stream"] == "posix":
             return []
+        if case["stream"] == "setname":
+            # independent of the model, and only what C14 says: whatever the assignments did (what a setter
+            # stores and when it refuses is C04's topic; the correspondence with the model pins it), the
+            # children are found by their paths and by the traversal afterwards - which two siblings of one
+            # name cannot be
+            out = []
+            for c in obs.get("calls", []):
+                if len(set(c["before"])) == len(c["before"]) and len(set(c["after"])) != len(c["after"]) \
+                        and obs.get("lost"):
+                    out.append("child %d of %s, name = %r (id %s): two siblings are called the same afterwards: %s"
+                               % (c["i"], c["before"], c["new"], c["oid"], c["after"]))
+            if obs.get("lost"):
+                out.append("after the assignments the path of child %s does not lead back to it" % obs["lost"])
+            if "seen" in obs and obs["seen"] != list(range(obs["n"])):
+                out.append("after the assignments the traversal of the parent yields the children %s of %d"
+                           % (obs["seen"], obs["n"]))
+            return out
         out = []
         if is_hist(case):
             out += obs.get("mid", [])        # the property at intermediate states of the history
@@ -2148,6 +2740,9 @@ class C14(fw.Check):
     def tag(self, case, obs):
         if case["stream"] == "posix":
             return ("posix:" + case["f"], bool(obs.get("r")))
+        if case["stream"] == "setname":
+            return ("setname:" + case["kind"], any(not c["raised"] and c["after"] != c["before"]
+                                                    for c in obs.get("calls", [])))
         case0, case = case, eff_case(case, obs)
         if case is None:
             return (case0["stream"] + ":skipped", False)
